@@ -20,7 +20,7 @@ def fld(E, st, name, width):
     fr = None
     if name.endswith("_decimal"):
         fr = z3.Real("p:" + name + ".frac")      # value of "0.<digits>"
-        st.assume(z3.And(fr >= 0, fr < 1))
+        st.assume(z3.And(fr >= 0, fr < 1, fr * 10 ** width == z3.ToReal(v)))
     return DigitField(width, v, fr)
 
 
